@@ -140,9 +140,9 @@ Lemma vsub_self_zero a : forall b, length a = length b ->
   Rdot (vsub oR a b) (vsub oR a b) = 0 -> a = b.
 Proof.
   induction a as [|x a IH]; intros [|y b] L H; simpl in *; try discriminate; auto.
-  pose proof (Rdot_self_nonneg (vsub oR a b)) as P. unfold vsub in P.
+  pose proof (Rdot_self_nonneg (vsub oR a b)) as P. unfold vsub in P. simpl in P.
   assert (E : x - y = 0) by nra.
-  f_equal; [lra|]. apply IH; [lia|]. unfold vsub. nra.
+  f_equal; [lra|]. apply IH; [lia|]. unfold vsub. simpl. nra.
 Qed.
 
 (** ** the round trip with all p components is the identity *)
